@@ -205,6 +205,14 @@ def generate(rng, tier):
     # (no model line; judged by the ledger predicate: exactly one outcome per queued message, every response attributed)
     from corr import c01s
     yield from c01s.generate(rng, 400 if thorough else 100)
+    # directed: the response to a request (plain, or the first segment of a segmented message) is processed while the put
+    # of that very request is suspended in the send_error hook of its sweep - on the unchanged tree the known finding
+    # response-overtakes-put, nothing else
+    for seg in (False, True):
+        for sd in (1, 3):
+            yield c01s.case_of({'msgs': [{'at': 0.5, 'log': 'L1', 'seg': False, 'react': 'silent'},
+                                         {'at': 5.0, 'log': 'L2', 'seg': seg, 'react': 'ok'}],
+                                'hook': 'error', 'stalls': 0, 'drops': 0, 'seed': sd, 'put_hook': False})
 
 
 def replay(inp):
